@@ -239,6 +239,7 @@ def peer(run, model):
     ncons = len(cases)
     if rp is None:
         cases += gen_block.peer_cases(r, 3000 if quick else 20000, 0.0)
+        cases += gen_block.peer_reject_cases(r, 400 if quick else 4000)
         ncons = len(cases)            # up to here the peer is honest: the oracle applies
         cases += gen_block.peer_cases(r, 4000 if quick else 30000, 0.35)
         cases += gen_block.peer_cases(r, 2000 if quick else 10000, 0.7)
